@@ -135,6 +135,8 @@ type AskSpec struct {
 	Create            int64  `json:"create"`           // creation time in unix seconds (far past), distinct per ask
 	BoundNode         string `json:"bound,omitempty"`  // for ASK_BOUND: node the RM placed it on
 	Resize            Res    `json:"resize,omitempty"` // for ASK_RESIZE
+	ResizeNoNode      bool   `json:"resizeNoNode,omitempty"` // ASK_RESIZE re-sends the request as originally submitted (no node id) even when bound
+	BindNode          string `json:"bind,omitempty"`         // for ASK_BIND: the RM binds the outstanding ask itself on this node
 }
 
 type ForeignSpec struct {
